@@ -178,3 +178,85 @@ theorem separateRow_row (st : PState) (c b : UInt8) (m : Nat) (name : Bytes)
     · exact second (presep st c) (Or.inr ⟨hm, rfl⟩) h
 
 end Gtree
+
+namespace Gtree
+
+/-- the attempt with the row's own symbol when the indentation is NOT a whole multiple of the learnt
+    unit: it fails (after latching the indent character) -/
+theorem attempt_self_not_multiple (st : PState) (c b : UInt8) (m : Nat) (rest : Bytes)
+    (hc : c = sp ∨ c = tab) (hcb : c ≠ b)
+    (hsep : st.sep = none ∨ st.sep = some c)
+    (hu : 2 ≤ st.spaces) (hmod : m % st.spaces ≠ 0) :
+    attempt st (List.replicate m c ++ b :: rest) b = (presep st c, none) := by
+  have hm : m ≠ 0 := by intro h; subst h; simp at hmod
+  unfold attempt
+  rw [cut_replicate_append b c m _ hcb, cut_head]
+  simp only [Option.map_some, List.append_nil]
+  obtain ⟨k, rfl⟩ : ∃ k, m = k + 1 := ⟨m - 1, by omega⟩
+  have hct : (c == sp || c == tab) = true := by rcases hc with rfl | rfl <;> simp [sp, tab]
+  have hgetD : ((if st.sep.isNone = true then ({ st with sep := some c } : PState) else st).sep.getD c) = c := by
+    rcases hsep with h | h <;> simp [h]
+  simp only [List.replicate_succ, hct, if_true, hgetD]
+  have hcount : countB c (c :: List.replicate k c) = k + 1 := by
+    have := countB_replicate c (k + 1)
+    simpa [List.replicate_succ] using this
+  simp only [hcount, List.length_cons, List.length_replicate, bne_self_eq_false, Bool.false_eq_true, if_false]
+  have hpre : (if st.sep.isNone = true then ({ st with sep := some c } : PState) else st) = presep st c := rfl
+  rw [hpre]
+  have hps := presep_spaces st c
+  have h0 : ((presep st c).spaces == 0) = false := by rw [hps]; simp; omega
+  have h1 : ¬ (presep st c).spaces ≤ 1 := by rw [hps]; omega
+  have h2 : ((k + 1) % (presep st c).spaces != 0) = true := by rw [hps]; simpa using hmod
+  simp [h0, h1, h2]
+
+/-- M3 — a list row whose indentation is not a whole multiple of the document's unit is rejected,
+    whatever bullet symbol it uses and whatever its text contains -/
+theorem separateRow_not_multiple (st : PState) (c b : UInt8) (m : Nat) (name : Bytes)
+    (hc : c = sp ∨ c = tab) (hb : b = hy ∨ b = ast ∨ b = pls)
+    (hsep : st.sep = none ∨ st.sep = some c)
+    (hu : 2 ≤ st.spaces) (hmod : m % st.spaces ≠ 0) :
+    (separateRow st (List.replicate m c ++ b :: sp :: name)).2 = none := by
+  have hm : m ≠ 0 := by intro h; subst h; simp at hmod
+  have hchy : c ≠ hy := by rcases hc with rfl | rfl <;> decide
+  have hcast : c ≠ ast := by rcases hc with rfl | rfl <;> decide
+  have hcpls : c ≠ pls := by rcases hc with rfl | rfl <;> decide
+  -- every attempt fails, and leaves the state at `st` or `presep st c`
+  have other : ∀ (st' : PState) (s : UInt8), (st' = st ∨ st' = presep st c) → s ≠ b → c ≠ s → sp ≠ s →
+      ∃ st'', attempt st' (List.replicate m c ++ b :: sp :: name) s = (st'', none) ∧ (st'' = st ∨ st'' = presep st c) := by
+    intro st' s hst' hsb hcs hss
+    have hsep' : st'.sep = none ∨ st'.sep = some c := by
+      rcases hst' with rfl | rfl
+      · exact hsep
+      · exact Or.inr (presep_sep st c hsep)
+    rcases attempt_other st' c b s m name hc hb hcs (fun e => hsb e.symm) hss hsep' with h | ⟨_, h⟩
+    · exact ⟨st', h, hst'⟩
+    · refine ⟨presep st' c, h, ?_⟩
+      rcases hst' with rfl | rfl
+      · exact Or.inr rfl
+      · exact Or.inr (presep_idem st c)
+  have self : ∀ (st' : PState), (st' = st ∨ st' = presep st c) →
+      ∃ st'', attempt st' (List.replicate m c ++ b :: sp :: name) b = (st'', none) ∧ (st'' = st ∨ st'' = presep st c) := by
+    intro st' hst'
+    have hcb : c ≠ b := by rcases hb with rfl | rfl | rfl <;> assumption
+    rcases hst' with rfl | rfl
+    · exact ⟨presep st' c, attempt_self_not_multiple st' c b m _ hc hcb hsep hu hmod, Or.inr rfl⟩
+    · refine ⟨presep st c, ?_, Or.inr rfl⟩
+      have := attempt_self_not_multiple (presep st c) c b m (sp :: name) hc hcb (Or.inr (presep_sep st c hsep))
+        (by rw [presep_spaces]; exact hu) (by rw [presep_spaces]; exact hmod)
+      rw [this, presep_idem]
+  unfold separateRow listSymbols
+  -- the three attempts in order; each is either the row's own symbol or another one
+  have step : ∀ (st' : PState) (s : UInt8), (st' = st ∨ st' = presep st c) → (s = hy ∨ s = ast ∨ s = pls) →
+      ∃ st'', attempt st' (List.replicate m c ++ b :: sp :: name) s = (st'', none) ∧ (st'' = st ∨ st'' = presep st c) := by
+    intro st' s hst' hs
+    by_cases hsb : s = b
+    · subst hsb; exact self st' hst'
+    · have hcs : c ≠ s := by rcases hs with rfl | rfl | rfl <;> assumption
+      have hss : sp ≠ s := by rcases hs with rfl | rfl | rfl <;> decide
+      exact other st' s hst' hsb hcs hss
+  obtain ⟨s1, h1, hs1⟩ := step st hy (Or.inl rfl) (Or.inl rfl)
+  obtain ⟨s2, h2, hs2⟩ := step s1 ast hs1 (Or.inr (Or.inl rfl))
+  obtain ⟨s3, h3, _⟩ := step s2 pls hs2 (Or.inr (Or.inr rfl))
+  simp [separateRowAux, h1, h2, h3]
+
+end Gtree
